@@ -721,6 +721,12 @@ def measure_lockstep(prog: Program) -> RuleResult:
         okp = len(apps2) == 1 and apps2[0].func.attr == "append"
         rets = [n for n in walk_no_nested(xfn) if isinstance(n, ast.Return)]
         okp = okp and len(rets) == 1 and isinstance(rets[0].value, ast.Name) and rets[0].value.id == dotted(apps2[0].func.value)
+    if not parse:
+        # the collecting loop in its canonical spelling: one list comprehension over the lines of the log, returned
+        rets = [n for n in walk_no_nested(xfn) if isinstance(n, ast.Return)]
+        if len(rets) == 1 and isinstance(rets[0].value, ast.ListComp) and len(rets[0].value.generators) == 1:
+            it = rets[0].value.generators[0].iter
+            okp = isinstance(it, ast.Call) and isinstance(it.func, ast.Attribute) and it.func.attr == "splitlines"
     if okp:
         res.ok(construct, "one MeasureBox appended per marked line, list returned as is")
     else:
